@@ -125,9 +125,10 @@ def _shape_rule(fn: Function, role: str, rep: Report) -> None:
     param = fn.params[0] if fn.params else None
     if param is None:
         raise AnalysisError(f"{fn.name} has no parameter")
-    it = Interp(fn.node, param)
+    from sa.strshape import interpret as _interpret
+
     try:
-        it.run()
+        it = _interpret(fn, param)
     except Unsupported as e:
         rep.error(f"R20.1: {fn.name} uses an operation the string-shape interpreter does not model: {e}")
         return
